@@ -1,5 +1,6 @@
 import Pyxv.Model.Json
 import Pyxv.Model.EntitiesSpec
+import Pyxv.Model.EntitiesRefs
 /-! Driver operations for the entities slice (C19): `entities.model` (interpreted, regenerated code),
 `entities.spec` (the documented table), `entities.ir` (what the translator produced, for the evidence). -/
 namespace Pyxv.Entities
@@ -36,17 +37,22 @@ def opsEntities (op : String) (j : Json) : Option (Except String Json) :=
       match dealiasRows ents with
       | .error e => pure (rejToJson e)
       | .ok ents' =>
-        let m := namePaths root [] survey
+        let els := chainsOfRows root (!ents'.isEmpty) survey
         let nsp : Option Str := match j.getObjVal? "namespaces" with | .ok (.str x) => some x.toList | _ => none
-        match convert root (fun s => substRefs m s.length s) nsp ents' survey with
+        if !(ents'.all (refsResolve els root)) then
+          pure (rejToJson (.unsupported "reference in an entity cell does not resolve (C03)"))
+        else
+        match convert root (entitySub els root) nsp ents' survey with
         | .error e => pure (rejToJson e)
         | .ok o => pure ((outToJson o).setObjVal! "customNs" (pairsToJson (customNs nsp !ents'.isEmpty)))
   | "entities.spec" => some do
       let root := getStrD j "root" "data"
       let ents ← rowsOfJson j "entities"
       let survey ← rowsOfJson j "survey"
-      let m := namePaths root [] survey
-      match Spec.form root (fun s => substRefs m s.length s) (String.ofList (getStrD j "version" "")) ents survey with
+      let els := chainsOfRows root (!ents.isEmpty) survey
+      let userNs : Option (Str × Str) := match j.getObjVal? "user_entities_ns" with
+        | .ok (.str x) => some (Spec.S "entities", x.toList) | _ => none
+      match Spec.form root (entitySub els root) (String.ofList (getStrD j "version" "")) userNs ents survey with
       | none => pure (Json.mkObj [("outcome", "rejected")])
       | some o => pure (outToJson o)
   | "entities.names" => some do
@@ -55,6 +61,7 @@ def opsEntities (op : String) (j : Json) : Option (Except String Json) :=
   | "entities.ir" => some do
       pure (Json.mkObj [
         ("fresh", Json.bool Gen.entityIrFresh),
+        ("fallback_reason", Json.str Gen.entityIrFallbackReason),
         ("entityDeclBody", Json.str (toString (repr Gen.entityDeclBody))),
         ("savetoBody", Json.str (toString (repr Gen.savetoBody))),
         ("entityInstanceAttrs", Json.str (toString (repr Gen.entityInstanceAttrs))),
